@@ -62,7 +62,7 @@ def scenarios(tier: str) -> List[Any]:
     out = []
     for engine in ("asyncio", "trio"):
         for carrier, pressure in CARRIER_PRESSURE:
-            for n in (4, 16, 64):
+            for n in (1, 4, 16, 64):  # N=1: the only waiting send is the final end-of-body drain
                 for rel in RELEASES[carrier]:
                     if rel == "resume" and pressure != "pause":
                         continue
